@@ -58,6 +58,13 @@ Concat(a, b) == /\ Ready /\ a \in 1..3 /\ b \in 1..3
                 /\ mem' = [mem EXCEPT ![3] = [cap |-> mem[a].cap + mem[b].cap, items |-> mem[a].items \o mem[b].items]]
                 /\ last' = "ok" /\ Log([op |-> "concat", a |-> a, b |-> b]) /\ UNCHANGED disk /\ Keep
 
+\* the parameters shared by the samples of a model (the interaction model's single-agent table) are updated IN PLACE - the model
+\* received another plate -: every sample in memory is now another value, the files are what they were.  Only modelled before the
+\* first load (loaded samples carry their own copy of the table and would not change).
+Retable == /\ Ready /\ ~\E x \in 1..Len(hist) : hist[x].op = "load"
+           /\ mem' = [h \in 1..3 |-> [mem[h] EXCEPT !.items = [x \in 1..Len(mem[h].items) |-> mem[h].items[x] + 1000 * (Len(hist) + 1)]]]
+           /\ last' = "ok" /\ Log([op |-> "retable"]) /\ UNCHANGED disk /\ Keep
+
 (* ---- chains ---- *)
 Perms(n) == {q \in [1..n -> 1..n] : \A a, b \in 1..n : a # b => q[a] # q[b]}
 RECURSIVE CatChains(_, _)
@@ -77,7 +84,7 @@ SaveAny == \E h \in 1..3, p \in 1..2 : Save(h, p)
 LoadAny == \E h \in 1..2, p \in 1..2 : Load(p, h)
 ConcatAny == \E a, b \in 1..3 : Concat(a, b)
 EvaluateAny == \E ord \in Perms(MaxChains) \cup Perms(1) \cup Perms(2) : Evaluate(ord)
-Next == NewHolderAny \/ AddAny \/ GetAny \/ SaveAny \/ LoadAny \/ ConcatAny \/ EvaluateAny
+Next == NewHolderAny \/ AddAny \/ GetAny \/ SaveAny \/ LoadAny \/ ConcatAny \/ Retable \/ EvaluateAny
 Bound == Len(hist) <= MaxDepth
 NoIdleRuns == (Len(hist') >= 2 /\ View' = View) => (hist'[Len(hist') - 1] # hist'[Len(hist')])
 
